@@ -536,3 +536,22 @@ Qed.
 Theorem rep_bounded p buf cap xs pad rest : Rep p buf cap xs pad rest ->
   len xs <= cap /\ unpack p buf = Ok (len xs, cap) /\ visible p buf = Ok xs.
 Proof. intros R. split; [apply R|]. split; [now apply (rep_unpack _ _ _ _ _ _ R)|now apply (rep_visible _ _ _ _ _ _ R)]. Qed.
+
+(** C09/C10: what a view exposes lies inside the buffer *)
+Theorem visible_in_bounds p buf xs : visible p buf = Ok xs ->
+  exists l cap, unpack p buf = Ok (l, cap) /\ length xs = N.to_nat l /\
+                data_start p + l * szT p <= len buf.
+Proof.
+  unfold visible. destruct (unpack p buf) as [[l cap]|e|] eqn:Eu; cbn [bind fst]; try discriminate.
+  destruct (unpack_ok_bounds p buf l cap Eu) as (Hle & _ & Hds & Hsz).
+  rewrite slice_from_some by exact Hds. intros [= <-]. exists l, cap. split; [reflexivity|]. split.
+  - clear. generalize (skipn (N.to_nat (data_start p)) buf). generalize (N.to_nat (szT p)).
+    induction (N.to_nat l) as [|n IH]; intros sz d; cbn [chunks length]; [reflexivity|]. now rewrite IH.
+  - nia.
+Qed.
+Theorem bytes_used_allocated p buf cap xs pad rest : Rep p buf cap xs pad rest ->
+  bytes_used p buf = size_of p (len xs) /\ bytes_allocated p buf = size_of p cap.
+Proof.
+  intros R. unfold bytes_used, bytes_allocated. rewrite (rep_unpack _ _ _ _ _ _ R). split; reflexivity.
+Qed.
+
